@@ -73,6 +73,17 @@ func InitGenesis(ctx sdk.Context, k keeper.Keeper, state *types.GenesisState) {
 	k.SetPoolID(ctx, poolID)
 	k.SetLendPairID(ctx, extendedPairID)
 	k.SetFundModBal(ctx, state.ModBal)
+	// the per (asset, pool) totals of the funding records are kept in a store of their own that the genesis state does
+	// not carry: rebuild them, as FundModAcc does, from the records
+	for _, item := range state.ModBal.FundModuleBalance {
+		amt, found := k.GetFundModBalByAssetPool(ctx, item.AssetID, item.PoolID)
+		if found {
+			amt = amt.Add(item.AmountIn)
+		} else {
+			amt = item.AmountIn
+		}
+		k.SetFundModBalByAssetPool(ctx, item.AssetID, item.PoolID, amt)
+	}
 	k.SetFundReserveBal(ctx, state.ReserveBal)
 	for _, item := range state.AllReserveStats {
 		k.SetAllReserveStatsByAssetID(ctx, item)
